@@ -32,6 +32,7 @@ type hFile struct {
 	Defs  map[int][]int // principal id -> key indices
 	Rules []hRule       // without the allow rule
 	NoAllow bool        // hand-built oddity: file without trailing allow rule
+	Idents  map[int]map[string]string // principal id -> app name -> identity registered for that app
 }
 
 func personID(i int) string { return fmt.Sprintf("p%d", i) }
@@ -41,6 +42,12 @@ func (f *hFile) metadata() *tufv02.TargetsMetadata {
 	t.Delegations = &tufv02.Delegations{Principals: map[string]tuf.Principal{}, Roles: []*tufv02.Delegation{}}
 	for pid, keys := range f.Defs {
 		p := &tufv02.Person{PersonID: personID(pid), PublicKeys: map[string]*tufv02.Key{}}
+		if ids, ok := f.Idents[pid]; ok {
+			p.AssociatedIdentities = map[string]string{}
+			for a, i := range ids {
+				p.AssociatedIdentities[a] = i
+			}
+		}
 		for _, k := range keys {
 			p.PublicKeys[poolKeyN(k).SSLib.KeyID] = tufv02.NewKeyFromSSLibKey(poolKeyN(k).SSLib)
 		}
